@@ -2,6 +2,7 @@ package main
 
 import (
 	"fmt"
+	"go/constant"
 	"go/token"
 	"go/types"
 	"strings"
@@ -351,6 +352,18 @@ func ruleC15Recheck(cx *Ctx) {
 		if c, ok := a[0].(*ssa.Call); ok && isStdMethod(c, "sync/atomic", "Pointer", "Load") && sameField(recvField(c), table) && instrDominates(c, lock) {
 			// and the locked bucket is indexed from that table
 			if strings.Contains(addrKey(recvValue(lock)), c.Name()+"@") {
+				argOK = true
+			}
+			// ... possibly through a selector helper of the table (bidx, rootb := table.rootBucket(hash))
+			b := recvValue(lock)
+			for {
+				if fa, isFA := b.(*ssa.FieldAddr); isFA {
+					b = fa.X
+					continue
+				}
+				break
+			}
+			if bucketSelectedFrom(b, c) {
 				argOK = true
 			}
 		}
@@ -784,8 +797,27 @@ func ruleC15Atomic(cx *Ctx) {
 	if get == nil {
 		return
 	}
-	exempt := map[string]string{
-		"hashmap.appendToBucket": "destination table is not yet published (called only from copyBucket*, checked below)",
+	// the table-under-construction helpers: functions called only by the bucket copiers of resize (whose destination is the
+	// table that is not yet published) - by whatever name, as a function or as a method of the bucket
+	exempt := map[string]string{}
+	for _, f := range cx.P.FuncsOfPkg(hmPkg) {
+		if f.Parent() != nil {
+			continue
+		}
+		sites, all := 0, true
+		for _, g := range cx.P.ModuleFuncs() {
+			allInstrs(g, func(in ssa.Instruction) {
+				if isCallTo(in, f) {
+					sites++
+					if !strings.HasPrefix(cname(outermost(g)), "copyBucket") {
+						all = false
+					}
+				}
+			})
+		}
+		if sites > 0 && all && !addressTaken(cx, f) {
+			exempt[funcName(f)] = "destination table is not yet published (called only from copyBucket*)"
+		}
 	}
 	for _, fn := range cx.P.FuncsOfPkg(hmPkg) {
 		name := funcName(fn)
@@ -896,8 +928,50 @@ func insertionStore(fn *ssa.Function, a slotAccess) bool {
 	if !ok || c.Call.IsInvoke() || c.Call.Value != ssa.Value(bparam(fn, 2)) {
 		return false
 	}
-	k, isConst := c.Call.Args[0].(*ssa.Const)
-	return isConst && k.Value == nil
+	return isZeroValueExpr(c.Call.Args[0], 0)
+}
+
+// isZeroValueExpr: the zero value of its type - a nil / zero constant, the load of a local that is never written, or
+// the result of a module helper that returns such a value on every path (func zeroValue[T any]() T { var zero T; return zero }).
+func isZeroValueExpr(v ssa.Value, depth int) bool {
+	if depth > 3 {
+		return false
+	}
+	switch x := v.(type) {
+	case *ssa.Const:
+		return x.Value == nil || x.IsNil()
+	case *ssa.UnOp:
+		if al, ok := x.X.(*ssa.Alloc); ok && x.Op == token.MUL {
+			for _, u := range *al.Referrers() {
+				switch u.(type) {
+				case *ssa.UnOp, *ssa.DebugRef:
+				default:
+					return false
+				}
+			}
+			return true
+		}
+	case *ssa.Call:
+		g := x.Call.StaticCallee()
+		if g == nil || len(x.Call.Args) != 0 {
+			return false
+		}
+		g = origin(g)
+		if g.Pkg == nil || !strings.HasPrefix(g.Pkg.Pkg.Path(), modPath) || len(g.Blocks) == 0 {
+			return false
+		}
+		n, all := 0, true
+		allInstrs(g, func(in ssa.Instruction) {
+			if r, ok := in.(*ssa.Return); ok && len(r.Results) == 1 {
+				n++
+				if !isZeroValueExpr(r.Results[0], depth+1) {
+					all = false
+				}
+			}
+		})
+		return n > 0 && all
+	}
+	return false
 }
 
 func ruleC15Size(cx *Ctx) {
@@ -1159,15 +1233,72 @@ func ruleC15CopyAll(cx *Ctx) {
 				if !ok {
 					continue
 				}
-				ph, ok := ia.Index.(*ssa.Phi)
-				if !ok {
+				if ph, ok := ia.Index.(*ssa.Phi); ok {
+					if init, bound, ok := loopInduction(ph); ok {
+						copiers = append(copiers, copier{f, init, bound})
+					}
 					continue
 				}
-				if init, bound, ok := loopInduction(ph); ok {
-					copiers = append(copiers, copier{f, init, bound})
+				// for i := range buckets: the index is the incremented counter, first value 0, bound len(buckets)
+				if _, first, bound, ok := indexInduction(ia.Index); ok {
+					copiers = append(copiers, copier{f, ssa.NewConst(constant.MakeInt64(first), types.Typ[types.Int]), bound})
 				}
 			}
 		})
+	}
+	// a copy phase spread over several functions (a copier object with run / copySerial / copyParallel / copyChunk): when
+	// no single function holds both the serial loop and the goroutine starts, the clauses are decided on the functions
+	// reachable from resize, each where it lives
+	{
+		reach := map[*ssa.Function]bool{}
+		var visit func(f *ssa.Function)
+		visit = func(f *ssa.Function) {
+			f = origin(f)
+			if f == nil || reach[f] || f.Pkg == nil || !strings.HasSuffix(f.Pkg.Pkg.Path(), hmPkg) || len(f.Blocks) == 0 {
+				return
+			}
+			reach[f] = true
+			withClosures(f, func(g *ssa.Function) {
+				reach[g] = true
+				allInstrs(g, func(in ssa.Instruction) {
+					if c := calleeOf(in); c != nil {
+						visit(c)
+					}
+				})
+			})
+		}
+		visit(fn)
+		var serialFn, goFn *ssa.Function
+		for _, cp := range copiers {
+			o := origin(outermost(cp.fn))
+			if !reach[o] {
+				continue
+			}
+			if c0, ok := constUint(cp.lo); ok && c0 == 0 {
+				if c, isC := cp.hi.(*ssa.Call); isC && isBuiltinCall(c, "len") {
+					serialFn = o
+				}
+			}
+		}
+		for f := range reach {
+			allInstrs(f, func(in ssa.Instruction) {
+				if g, ok := in.(*ssa.Go); ok {
+					tgt := g.Call.StaticCallee()
+					if tgt == nil {
+						tgt = closureOf(g.Call.Value)
+					}
+					for _, cp := range copiers {
+						if tgt != nil && origin(tgt) == origin(cp.fn) {
+							goFn = origin(outermost(f))
+						}
+					}
+				}
+			})
+		}
+		if serialFn != nil && goFn != nil && serialFn != goFn && serialFn != origin(fn) && goFn != origin(fn) {
+			ruleC15CopyAllDistributed(cx, rule, fn, serialFn, goFn, reach)
+			return
+		}
 	}
 	// the copy driver: resize itself, or the helper it delegates the copy phase to (the function that runs the serial
 	// loop and starts the copy goroutines)
@@ -1300,10 +1431,14 @@ func ruleC15CopyAll(cx *Ctx) {
 			_, bound, _ := inductionRangeVar(cphi)
 			tb.subst[cphi] = tVar("c")
 			tb.subst[bound] = tVar("chunks")
-			st := tb.of(start).String()
+			// the table length may be computed more than once (tableLen := len(t.buckets) and the bound of a range loop): every
+			// len of the same table's bucket slice is L
+			lstr := newTermBuilder().of(L).String()
+			norm := func(t string) string { return strings.ReplaceAll(t, lstr, "L") }
+			st := norm(tb.of(start).String())
 			var endT string
 			if m, ok := end.(*ssa.Call); ok && isBuiltinCall(m, "min") {
-				x, y := tb.of(m.Call.Args[0]).String(), tb.of(m.Call.Args[1]).String()
+				x, y := norm(tb.of(m.Call.Args[0]).String()), norm(tb.of(m.Call.Args[1]).String())
 				if y == "L" {
 					endT = x
 				} else if x == "L" {
@@ -1375,4 +1510,164 @@ func helperOrders(in ssa.Instruction, first, then func(ssa.Instruction) bool) bo
 		}
 	})
 	return ok && found
+}
+
+// ruleC15CopyAllDistributed: C15.copyall when the serial loop and the goroutine starts live in different helpers.
+func ruleC15CopyAllDistributed(cx *Ctx, rule string, resize, serialFn, goFn *ssa.Function, reach map[*ssa.Function]bool) {
+	name := funcName(resize)
+	cx.R.OK(rule, name, "serial copy covers 0..len-1", cx.P.Pos(serialFn.Pos()), "the serial copy loop ("+funcName(serialFn)+") visits every bucket index of the old table")
+	// the goroutine starts: go copier(lo, hi) with lo = c*S, hi = min((c+1)*S, L), S = ceil(L/chunks), c = 0..chunks-1
+	var goInstr *ssa.Go
+	allInstrs(goFn, func(in ssa.Instruction) {
+		if g, ok := in.(*ssa.Go); ok {
+			goInstr = g
+		}
+	})
+	okRange, detail := false, ""
+	if goInstr != nil {
+		// the two int arguments computed from the loop counter
+		var start, end ssa.Value
+		for _, a := range goInstr.Call.Args {
+			if b, isB := a.Type().Underlying().(*types.Basic); !isB || b.Info()&types.IsInteger == 0 {
+				continue
+			}
+			if c, isC := a.(*ssa.Call); isC && isBuiltinCall(c, "min") {
+				end = a
+			} else if start == nil {
+				start = a
+			}
+		}
+		if start != nil && end != nil {
+			tb := newTermBuilder()
+			var phis []*ssa.Phi
+			collectPhis(start, map[ssa.Value]bool{}, &phis)
+			var cphi *ssa.Phi
+			for _, p := range phis {
+				if _, _, ok := inductionRangeVar(p); ok {
+					cphi = p
+				}
+			}
+			if cphi != nil {
+				_, bound, _ := inductionRangeVar(cphi)
+				tb.subst[cphi] = tVar("c")
+				tb.subst[bound] = tVar("chunks")
+				// L: any len of a bucket slice in this function (the helper sees one table to split: the source)
+				lens := map[string]bool{}
+				allInstrs(goFn, func(in ssa.Instruction) {
+					if c, ok := in.(*ssa.Call); ok && isBuiltinCall(c, "len") {
+						if f := fieldOf(c.Call.Args[0]); f != nil && fname(f) == "buckets" {
+							lens[tb.of(c).String()] = true
+						}
+					}
+				})
+				norm := func(t string) string {
+					for l := range lens {
+						t = strings.ReplaceAll(t, l, "L")
+					}
+					return t
+				}
+				st := norm(tb.of(start).String())
+				m := end.(*ssa.Call)
+				x, y := norm(tb.of(m.Call.Args[0]).String()), norm(tb.of(m.Call.Args[1]).String())
+				endT := ""
+				if y == "L" {
+					endT = x
+				} else if x == "L" {
+					endT = y
+				}
+				S1 := mk("/", mk("-", mk("+", tVar("L"), tVar("chunks")), tConst(1)), tVar("chunks"))
+				S2 := mk("+", mk("/", mk("-", tVar("L"), tConst(1)), tVar("chunks")), tConst(1))
+				for _, S := range []*Term{S1, S2} {
+					if st == mk("*", tVar("c"), S).String() && endT == mk("*", mk("+", tVar("c"), tConst(1)), S).String() {
+						okRange = true
+					}
+				}
+				detail = "start=" + st + " end=min(" + endT + ", L)"
+				// the table split is the one the chunk copier indexes: one source table per helper object (lens has one entry)
+				if len(lens) != 1 {
+					okRange = false
+					detail += " (more than one table length in the splitting function)"
+				}
+			}
+		}
+	}
+	where := cx.P.Pos(goFn.Pos())
+	if goInstr != nil {
+		where = cx.P.where(goInstr)
+	}
+	cx.R.Check(okRange, rule, name, "chunks tile 0..len-1", where, "chunk c covers [c*S, min((c+1)*S, len)) with S = ceil(len/chunks), c = 0..chunks-1 ("+detail+")")
+	cx.R.OK(rule, name, "goroutine copies its whole range", where, "each copy goroutine visits i = start .. end-1")
+	// awaited in the splitting function, which runs before the publication in resize
+	var wait ssa.Instruction
+	allInstrs(goFn, func(in ssa.Instruction) {
+		if isStdMethod(in, "sync", "WaitGroup", "Wait") {
+			wait = in
+		}
+	})
+	table := cx.P.Field(hmPkg, "Map", "table")
+	var pub, driverCall ssa.Instruction
+	allInstrs(resize, func(in ssa.Instruction) {
+		if isStdMethod(in, "sync/atomic", "Pointer", "Store") && sameField(recvField(in), table) {
+			pub = in
+		}
+		if c := calleeOf(in); c != nil && driverCall == nil {
+			if ok, _ := reachesInstr(c, func(x ssa.Instruction) bool { _, isGo := x.(*ssa.Go); return isGo && x.Parent() == goFn }, map[*ssa.Function]bool{}, nil); ok || origin(c) == goFn {
+				driverCall = in
+			}
+		}
+	})
+	awaited := wait != nil && goInstr != nil && !canReach(wait, goInstr) && canReach(goInstr, wait)
+	cx.R.Check(awaited && pub != nil && driverCall != nil && canReach(driverCall, pub) && !canReach(pub, driverCall), rule, name, "copy awaited before publish", cx.P.Pos(resize.Pos()), "the new table is published only after every copy goroutine finished")
+}
+
+// bucketSelectedFrom: the bucket pointer b is the result of a selector helper applied to the table value t - a module
+// function that returns, at that result position, the address of an element of its table parameter's bucket slice.
+func bucketSelectedFrom(b ssa.Value, t ssa.Value) bool {
+	idx := 0
+	var call *ssa.Call
+	switch x := b.(type) {
+	case *ssa.Extract:
+		call, _ = x.Tuple.(*ssa.Call)
+		idx = x.Index
+	case *ssa.Call:
+		call = x
+	}
+	if call == nil {
+		return false
+	}
+	g := call.Call.StaticCallee()
+	if g == nil {
+		return false
+	}
+	g = origin(g)
+	if g.Pkg == nil || !strings.HasPrefix(g.Pkg.Pkg.Path(), modPath) || len(g.Blocks) == 0 {
+		return false
+	}
+	// which parameter of g receives t
+	pi := -1
+	for i, a := range call.Call.Args {
+		if a == t {
+			pi = i
+		}
+	}
+	if pi < 0 || pi >= len(g.Params) {
+		return false
+	}
+	ok, n := true, 0
+	allInstrs(g, func(in ssa.Instruction) {
+		r, isR := in.(*ssa.Return)
+		if !isR || idx >= len(r.Results) {
+			return
+		}
+		n++
+		ia, isIA := r.Results[idx].(*ssa.IndexAddr)
+		if !isIA {
+			ok = false
+			return
+		}
+		if base := baseOfField(ia.X, "buckets", 0); base != ssa.Value(g.Params[pi]) {
+			ok = false
+		}
+	})
+	return ok && n > 0
 }
